@@ -77,6 +77,28 @@ theorem C15_compound_assignment (M : Machine) (F : FnTable) (obj : HostVal) (dep
               exact ⟨⟨p.1, rfl⟩, fun other ho => C15_set_only_target env name other p.1 ho⟩
 
 
+open EvalFilter.Exec in
+/-- **`x++` / `x--` change `x` and nothing else** (end to end: `C02_incdec_semantics` is what the compiled
+    code does): the new environment is the old one with `x` set to a fresh value one more or less; every
+    other variable reads as before; a non-number is an error and changes nothing -/
+theorem C15_incdec_only_target (obj : HostVal) (env env' : Env) (name : Str) (inc : Bool)
+    (h : incDecEnv obj env name inc = .ok env') :
+    (∃ v, env' = env.set name v ∧
+      ((∃ i, lookup obj env name = .ok (.int i) ∧ v = .int (if inc then i + 1 else i - 1)) ∨
+       (∃ x, lookup obj env name = .ok (.float x) ∧ v = .float (if inc then x + 1 else x - 1)))) ∧
+    ∀ other, other ≠ name → env'.get other = env.get other := by
+  unfold incDecEnv at h
+  cases hl : lookup obj env name with
+  | error e => simp [hl] at h
+  | ok v =>
+    cases v <;> simp only [hl, Except.ok.injEq, reduceCtorEq] at h
+    case int i =>
+      subst h
+      exact ⟨⟨_, rfl, Or.inl ⟨i, rfl, rfl⟩⟩, fun other ho => C15_set_only_target env name other _ ho⟩
+    case float x =>
+      subst h
+      exact ⟨⟨_, rfl, Or.inr ⟨x, rfl, rfl⟩⟩, fun other ho => C15_set_only_target env name other _ ho⟩
+
 /-- `x++` on an integer variable: the new state is the old one with x := x + 1 (a fresh value), the
     looked-up value is dropped from the stack; nothing else changes. -/
 theorem C15_inc_step (M : Machine) (obj : HostVal) (codeLen : Nat) (runBody : Bytes → RunSt → Res × RunSt)
